@@ -12,7 +12,7 @@ use crate::GDResult;
 use std::cell::RefCell;
 use std::net::SocketAddr;
 
-pub use crate::buffer::{Buffer, StringDecoder, Utf16Decoder, Utf8Decoder, Utf8LengthPrefixedDecoder};
+pub use crate::buffer::{Buffer, StringDecoder, SwitchEndian, Utf16Decoder, Utf8Decoder, Utf8LengthPrefixedDecoder};
 pub use crate::socket::{Socket as SocketTrait, TcpSocketImpl as RealTcpSocket, UdpSocketImpl as RealUdpSocket};
 pub use crate::utils::{error_by_expected_size, retry_on_timeout, u8_lower_upper};
 
